@@ -1,3 +1,4 @@
+import SockModel.Props.C18Hs
 import SockModel.Model.TlsLemmas
 import SockModel.Model.HsLemmas
 import SockModel.Model.TlsBudget
@@ -1662,3 +1663,75 @@ example :
   constructor <;> simp [twoRoundEngine, Int.min_def, receiveT, sendT, tlsRead, tlsWrite, handleLastError, handleError, setTimeout, freshOn, withLog, readLoop, readRound, writeLoop, writeRound, writeRetry, roundDecreases, setPending, interp, bioRead, bioWrite, noteWrite, Net.sendSome, Net.sendAll, sendTry, sendNow, receive, recvNow, logWorld, TW.world, TW.elapsed, noteCall, handleResult, SslAns.toErr, setLastError, waitUnder, underDeadline, remainingMs, logOf, stash, Cfg.current, stepsMaxConst, SockModel.Consts.handshakeStepsMax]
 
 end SockModel.Tls
+
+/-! ## handshake completion beyond the polling schedule
+
+Re-exports of `Props/C18Hs.lean` (statements, hypotheses and examples are documented there): the handshake of the
+two-endpoint composition completes under **every** schedule of calls - any order of the two sides' calls, any mix of
+`Send` and `Receive`, any receive sizes - as long as no side is starved. -/
+namespace SockModel.Hs
+open SockModel.Net SockModel.Tls
+
+theorem call_progress (C : Cfg) (hC : 1 < C.stepsMax) (P : HsP) (dc ds : Bytes) (hdc : dc ≠ []) (hds : ds ≠ [])
+    (y : Sys) (hinv : SysInv P dc ds y) (a : Act) (ha : a.ok) :
+    SysInv P dc ds (y.act C P dc ds a) ∧ (y.act C P dc ds a).faults = 0 ∧
+    mu P (y.act C P dc ds a) ≤ mu P y ∧
+    (y.canProg a.client → mu P (y.act C P dc ds a) < mu P y) ∧
+    y.ec.stage ≤ (y.act C P dc ds a).ec.stage ∧ y.es.stage ≤ (y.act C P dc ds a).es.stage ∧
+    (y.canProg (!a.client) → (y.act C P dc ds a).canProg (!a.client)) :=
+  C18Hs.call_progress C hC P dc ds hdc hds y hinv a ha
+
+theorem some_side_can_progress (P : HsP) (dc ds : Bytes) (y : Sys) (hinv : SysInv P dc ds y)
+    (hnf : ¬ y.bothFinished) : y.canProg true ∨ y.canProg false :=
+  C18Hs.some_side_can_progress P dc ds y hinv hnf
+
+theorem schedule_progress (C : Cfg) (hC : 1 < C.stepsMax) (P : HsP) (dc ds : Bytes) (hdc : dc ≠ []) (hds : ds ≠ [])
+    (l : List Act) (hok : ∀ a ∈ l, a.ok) (y : Sys) (hinv : SysInv P dc ds y) :
+    SysInv P dc ds (Sys.run C P dc ds l y) ∧ (Sys.run C P dc ds l y).faults = 0 ∧
+    mu P (Sys.run C P dc ds l y) + progCalls C P dc ds l y ≤ mu P y ∧
+    y.ec.stage ≤ (Sys.run C P dc ds l y).ec.stage ∧ y.es.stage ≤ (Sys.run C P dc ds l y).es.stage :=
+  C18Hs.schedule_progress C hC P dc ds hdc hds l hok y hinv
+
+theorem handshake_completes_counting (C : Cfg) (hC : 1 < C.stepsMax) (P : HsP) (dc ds : Bytes) (hdc : dc ≠ [])
+    (hds : ds ≠ []) (segs : List Nat) (l : List Act) (hok : ∀ a ∈ l, a.ok)
+    (hcount : P.total ≤ progCalls C P dc ds l (Sys.init P segs)) :
+    (Sys.run C P dc ds l (Sys.init P segs)).bothFinished ∧ (Sys.run C P dc ds l (Sys.init P segs)).faults = 0 :=
+  C18Hs.handshake_completes_counting C hC P dc ds hdc hds segs l hok hcount
+
+theorem handshake_completes_prog_fair (C : Cfg) (hC : 1 < C.stepsMax) (P : HsP) (dc ds : Bytes) (hdc : dc ≠ [])
+    (hds : ds ≠ []) (segs : List Nat) (w : Nat) (l : List Act) (hok : ∀ a ∈ l, a.ok)
+    (hf : ProgFair C P dc ds w l (Sys.init P segs)) (j : Nat) (hj : j ≤ l.length) :
+    (Sys.run C P dc ds (l.take j) (Sys.init P segs)).faults = 0 ∧
+    (P.total * w ≤ j → (Sys.run C P dc ds (l.take j) (Sys.init P segs)).bothFinished) :=
+  C18Hs.handshake_completes_prog_fair C hC P dc ds hdc hds segs w l hok hf j hj
+
+theorem handshake_completes_any_schedule (C : Cfg) (hC : 1 < C.stepsMax) (P : HsP) (dc ds : Bytes) (hdc : dc ≠ [])
+    (hds : ds ≠ []) (segs : List Nat) (w : Nat) (l : List Act) (hok : ∀ a ∈ l, a.ok) (hf : SideFair w l)
+    (j : Nat) (hj : j ≤ l.length) :
+    (Sys.run C P dc ds (l.take j) (Sys.init P segs)).faults = 0 ∧
+    (P.total * w ≤ j → (Sys.run C P dc ds (l.take j) (Sys.init P segs)).bothFinished) ∧
+    (∀ i, i ≤ j →
+      (Sys.run C P dc ds (l.take i) (Sys.init P segs)).ec.stage ≤ (Sys.run C P dc ds (l.take j) (Sys.init P segs)).ec.stage ∧
+      (Sys.run C P dc ds (l.take i) (Sys.init P segs)).es.stage ≤ (Sys.run C P dc ds (l.take j) (Sys.init P segs)).es.stage) :=
+  C18Hs.handshake_completes_any_schedule C hC P dc ds hdc hds segs w l hok hf j hj
+
+theorem handshake_completes_any_infinite_schedule (C : Cfg) (hC : 1 < C.stepsMax) (P : HsP) (dc ds : Bytes)
+    (hdc : dc ≠ []) (hds : ds ≠ []) (segs : List Nat) (w : Nat) (σ : Nat → Act) (hok : ∀ i, (σ i).ok)
+    (hf : SideFairInf w σ) (k : Nat) :
+    (Sys.runTo C P dc ds σ k (Sys.init P segs)).faults = 0 ∧
+    (P.total * w ≤ k → (Sys.runTo C P dc ds σ k (Sys.init P segs)).bothFinished) :=
+  C18Hs.handshake_completes_any_infinite_schedule C hC P dc ds hdc hds segs w σ hok hf k
+
+theorem starved_server_never_completes (C : Cfg) (P : HsP) (dc ds : Bytes) (segs : List Nat) (l : List Act)
+    (hl : C18Hs.OnlySide true l) :
+    (Sys.run C P dc ds l (Sys.init P segs)).es = Hs.init P false ∧
+    ¬ (Sys.run C P dc ds l (Sys.init P segs)).bothFinished :=
+  C18Hs.starved_server_never_completes C P dc ds segs l hl
+
+theorem starved_client_never_completes (C : Cfg) (P : HsP) (dc ds : Bytes) (segs : List Nat) (l : List Act)
+    (hl : C18Hs.OnlySide false l) :
+    (Sys.run C P dc ds l (Sys.init P segs)).ec = Hs.init P true ∧
+    ¬ (Sys.run C P dc ds l (Sys.init P segs)).bothFinished :=
+  C18Hs.starved_client_never_completes C P dc ds segs l hl
+
+end SockModel.Hs
